@@ -677,21 +677,23 @@ def inodesLoop (p : Nat) : List Nat → Nat → M Nat
 /-- process_inet(file, ...): `if file.endswith('6') and not os.path.exists(file): return` -/
 def processInet (f : NetFile) : M Unit := do
   let six := (f == .tcp6 || f == .udp6)
-  if six then
-    if !(← pathExists (.net f)) then return ()
-  let _ ← readFile (.net f)
-  pure ()
+  let unsupported ← (if six then do let ex ← pathExists (.net f); pure (!ex) else pure false)
+  if unsupported then pure ()
+  else do
+    let _ ← readFile (.net f)
+    pure ()
 
 /-- NetConnections.retrieve('inet', pid) -/
 def retrieve (p : Nat) : M Nat := do
   let fds ← accListdir (.dir p .fd)
   let n ← inodesLoop cfg p fds 0
-  if n == 0 then return 0
-  processInet .tcp
-  processInet .tcp6
-  processInet .udp
-  processInet .udp6
-  pure n
+  if n == 0 then pure 0                    -- "no connections for this process"
+  else do
+    processInet .tcp
+    processInet .tcp6
+    processInet .udp
+    processInet .udp6
+    pure n
 
 def netConnections (p : Nat) : M Nat := W cfg "net_connections" p <| do
   let n ← retrieve cfg p
